@@ -246,8 +246,14 @@ func placementBehindAStuckHandler(rec *mon.Recorder, c int) {
 			if g := cl.Nodes[2].PartitionRaft(dsId, pid); g != nil {
 				if st := g.VerifStatus(); st.Lead == 3 {
 					led++
+				} else if led < 2 {
+					g := g
+					cl.Guard(2*time.Second, func() { g.VerifCampaign() }) // node 3 asks for the lead of a group it is in
 				}
 			}
+		}
+		if led < 2 {
+			time.Sleep(50 * time.Millisecond)
 		}
 		return led >= 2
 	})
